@@ -9,11 +9,31 @@ Case kinds (description-first; numbers are dyadic rationals as strings):
   export  loader.load, loader.dcost a builder export: load (each cost kind), fixed_load, storage, supply, thermal_load
 
 The generator keeps three populations apart (see `gen_export`):
-  * MAIN       well-formed exports of the kinds that load today;
-  * MALFORMED  exports that must be rejected (no run at 0, non-fixed fixed load, unknown type, …):
-               T2 compares the exception type with the model, the oracle only requires *an* exception;
-  * KNOWN-BAD  well-formed (per the property) exports that cannot load / load wrongly today — functions
-               `kb_*` below, tagged `_kb`.  The oracle reports each with a precise key; nothing is hidden.
+  * MAIN       well-formed exports of the kinds that load today (load / supply x every cost kind incl. supply at basis 2
+               and supply x flow_bounds_relative since fix 375582f, fixed_load, storage);
+  * MALFORMED  inputs outside the property (no run at 0, fixed load with open slots, unknown type, no `costs` entry,
+               cumulative_flow, ...): T2 compares model and implementation outcome (both raising the same type, or both
+               loading the same leaves, is agreement); the oracle demands NOTHING of them — which exports are rejected
+               is not part of C20;
+  * KNOWN-BAD  well-formed (per the property) exports of kinds the loader claims to support but cannot load today:
+               `kb_thermal` (thermal_load, basis >= 2) and `kb_storage_clip` (storage with clipping factors), tagged `_kb`.
+               The oracle reports each with a precise key ({'kind': 'cannot-load', 'device_type': ..., 'exc': ...}).
+
+Observed, OUTSIDE the property (not emitted by the oracle; T2 still pins the model to the code on them):
+  * `load_fixed_load_device` rejects only when ALL slots have lo != hi (`.all()`), so a fixed load with SOME open slots
+    is accepted — C20 does not say which exports are rejected;
+  * `load_data` evaluates `'name' in data` on the device LIST: the export's name is never used, the set is always
+    'site' — set ids are not part of C20;
+  * `care2bounds` / `on2bounds` read a length-2 `bounds` as the documented 2-tuple `(low, high)`, so a bounds VECTOR at
+    horizon 2 is taken as that pair — the 2-tuple form has precedence at n = 2 (like validate_bounds' table precedence);
+    model and oracle both use that reading;
+  * a load / supply device without a `costs` entry raises KeyError in `load_cost_function` — treated as malformed input;
+  * supply `cumulative_bounds` are NOT negated by the loader (positive supply totals fail as infeasible); the generator
+    draws them feasible for the negated bounds;
+  * supply x flow_bounds_relative: the curve's x_l/x_h are the NEGATED bounds and the whole cost is then reflected;
+    the oracle checks the parameters are the device's bounds, as the code has it;
+  * `cumulative_flow_bounds_relative` without `cumulative_bounds` raises TypeError; an empty device list raises inside
+    DeviceSet; the nested-quote f-string in `load_cbounds` needs Python >= 3.12.
 """
 import copy, math, logging
 from fractions import Fraction
@@ -267,11 +287,11 @@ def gen_cb_run(rng, basis, lo, hi, feasible=True):
 COST_KINDS = ['none', 'flow', 'flow_bounds_relative', 'cumulative_flow_bounds_relative', 'peak_flow', 'several']
 
 
-def gen_costs(rng, basis, kind, allow_fbr=True):
+def gen_costs(rng, basis, kind):
   c = {}
   kinds = [kind]
   if kind == 'several':
-    kinds = [k for k in COST_KINDS[1:5] if rng.random() < 0.6 and (allow_fbr or k != 'flow_bounds_relative')] or ['flow']
+    kinds = [k for k in COST_KINDS[1:5] if rng.random() < 0.6] or ['flow']
   if kind == 'none':
     kinds = []
   for k in kinds:
@@ -326,9 +346,7 @@ def gen_supply(rng, basis, cost_kind):
   d = {'type': 'supply', 'bounds': gen_bounds_run(rng, basis, '+')}
   tb = table_of(d['bounds'])
   lo, hi = [-F(x[1]) for x in tb], [-F(x[0]) for x in tb]
-  if cost_kind == 'flow_bounds_relative':          # known-bad for supply: only through kb_supply_fbr
-    cost_kind = 'flow'
-  c = gen_costs(rng, basis, cost_kind, allow_fbr=False)
+  c = gen_costs(rng, basis, cost_kind)
   if 'cumulative_flow_bounds_relative' in c or rng.random() < 0.3:
     d['cumulative_bounds'] = gen_cb_run(rng, basis, lo, hi)    # NOT negated by the loader: feasible for the negated bounds
   d['costs'] = c
@@ -337,8 +355,8 @@ def gen_supply(rng, basis, cost_kind):
 
 # ---- MALFORMED exports: must be rejected -------------------------------------------------------
 def malformed_device(rng, basis):
-  why = rng.choice(['no-zero-run', 'fixed-all-open', 'unknown-type', 'cumulative-flow', 'cfbr-without-cbounds',
-                    'infeasible-cbounds', 'flow-too-short', 'no-parameters'])
+  why = rng.choice(['no-zero-run', 'fixed-all-open', 'fixed-partly-open', 'unknown-type', 'cumulative-flow', 'cfbr-without-cbounds',
+                    'infeasible-cbounds', 'flow-too-short', 'no-parameters', 'no-costs'])
   if why == 'no-zero-run' and basis >= 2:
     d = gen_load(rng, basis, 'none')
     d['bounds']['runs'] = [[s if s else 1, v] for s, v in d['bounds']['runs'] if s == 0 or s > 1]
@@ -346,6 +364,13 @@ def malformed_device(rng, basis):
     d = {'type': 'fixed_load', 'bounds': gen_bounds_run(rng, basis, '+')}
     for r in d['bounds']['runs']:
       r[1][1] = fs(F(r[1][0]) + 1)
+  elif why == 'fixed-partly-open' and basis >= 2:      # accepted today (`.all()`): outside the property, T2 only
+    d = {'type': 'fixed_load', 'bounds': gen_bounds_run(rng, basis, '+', fixed=True, k=max(2, min(3, basis)))}
+    r = rng.choice(d['bounds']['runs'])
+    r[1][1] = fs(F(r[1][0]) + 1)
+  elif why == 'no-costs':                              # KeyError in load_cost_function: malformed for this loader
+    d = gen_load(rng, basis, 'none') if rng.random() < 0.5 else gen_supply(rng, basis, 'none')
+    del d['costs']
   elif why == 'unknown-type':
     d = gen_fixed(rng, basis); d['type'] = 'battery'
   elif why == 'cumulative-flow':
@@ -389,32 +414,6 @@ def kb_storage_clip(rng, basis):
   return d
 
 
-def kb_supply_fbr(rng, basis):
-  d = gen_supply(rng, basis, 'none'); d['_kb'] = 'supply-flow-bounds-relative'
-  d['costs'] = gen_costs(rng, basis, 'flow_bounds_relative')
-  return d
-
-
-def kb_no_costs(rng, basis):
-  d = gen_load(rng, basis, 'none') if rng.random() < 0.5 or basis == 2 else gen_supply(rng, basis, 'none')
-  del d['costs']; d['_kb'] = 'no-costs'
-  return d
-
-
-def kb_supply_basis2(rng, basis):
-  assert basis == 2
-  d = gen_supply(rng, basis, rng.choice(['none', 'flow', 'peak_flow'])); d['_kb'] = 'supply-basis2'
-  d.pop('cumulative_bounds', None)
-  return d
-
-
-def kb_fixed_partly_open(rng, basis):
-  d = {'type': 'fixed_load', '_kb': 'fixed-partly-open', 'bounds': gen_bounds_run(rng, basis, '+', fixed=True, k=max(2, min(3, basis)))}
-  r = rng.choice(d['bounds']['runs'])
-  r[1][1] = fs(F(r[1][0]) + 1)
-  return d
-
-
 def gen_export(rng, tier, focus=None):
   basis = pick_basis(rng, tier)
   ndev = rng.choice([1, 2, 2, 3, 3, 4])
@@ -423,8 +422,6 @@ def gen_export(rng, tier, focus=None):
   for i in range(ndev):
     kind = (focus[0] if focus and i == 0 else rng.choice(kinds))
     ck = (focus[1] if focus and i == 0 else rng.choice(COST_KINDS))
-    if kind == 'supply' and basis == 2:       # MAIN excludes supply at basis 2 (known-bad, see kb_supply_basis2)
-      kind = 'load'
     if kind == 'load':
       d = gen_load(rng, basis, ck)
     elif kind == 'fixed_load':
@@ -440,21 +437,11 @@ def gen_export(rng, tier, focus=None):
   r = rng.random()
   if focus is None and r < 0.10:                                   # ---- MALFORMED branch
     devs[rng.randrange(len(devs))] = malformed_device(rng, basis)
-  elif focus is None and r < 0.24:                                 # ---- KNOWN-BAD branch
-    which = rng.choice(['thermal', 'storage-clipping', 'supply-fbr', 'no-costs', 'supply-basis2', 'fixed-partly-open', 'name'])
-    if which == 'supply-basis2':
-      e['basis'] = basis = 2
-      devs[:] = [gen_fixed(rng, 2) for _ in devs]
-      devs[rng.randrange(len(devs))] = kb_supply_basis2(rng, 2)
-    elif which == 'name':
-      e['name'] = 'myset'; e['_kb'] = 'name'
-    elif which == 'fixed-partly-open' and basis < 2:
-      devs[rng.randrange(len(devs))] = kb_no_costs(rng, basis)
-    else:
-      mk = {'thermal': lambda: kb_thermal_fix(kb_thermal(rng, basis)), 'storage-clipping': lambda: kb_storage_clip(rng, basis),
-            'supply-fbr': lambda: kb_supply_fbr(rng, basis), 'no-costs': lambda: kb_no_costs(rng, basis),
-            'fixed-partly-open': lambda: kb_fixed_partly_open(rng, basis)}[which]
-      devs[rng.randrange(len(devs))] = mk()
+  elif focus is None and r < 0.18:                                 # ---- KNOWN-BAD branch (thermal, storage clipping)
+    mk = rng.choice([lambda: kb_thermal_fix(kb_thermal(rng, basis)), lambda: kb_storage_clip(rng, basis)])
+    devs[rng.randrange(len(devs))] = mk()
+  if rng.random() < 0.08:
+    e['name'] = 'myset'                                             # ignored by load_data (observed, outside the property)
   # probe flows for loader.dcost
   i = rng.randrange(len(devs))
   e_case = {'k': 'export', 'export': e, '_ints': rng.random() < 0.5,
@@ -497,7 +484,7 @@ def gen_helper_bounds(rng, n):
   if form == 'pairvec':
     lo = [dy(rng, -3, 3) for _ in range(n)]
     return {'form': 'pairvec', 'lo': [fs(x) for x in lo], 'hi': [fs(x + dy(rng, 0, 3)) for x in lo]}
-  return {'form': 'vector', 'v': [val(rng) for _ in range(n)]}      # n == 2: KNOWN-BAD branch (read as a 2-tuple)
+  return {'form': 'vector', 'v': [val(rng) for _ in range(n)]}      # n == 2: read as the 2-tuple (documented precedence)
 
 
 def gen_care_case(rng, tier):
@@ -581,6 +568,8 @@ def o_well_formed(d, basis):
     return 'bounds are not ordered pairs'
   if d['type'] == 'fixed_load' and any(F(v[0]) != F(v[1]) for v in tb):
     return 'fixed load with a slot whose bounds differ'
+  if d['type'] in ('load', 'supply') and 'costs' not in d:
+    return 'no costs entry'
   if 'cumulative_flow' in costs:
     return 'cumulative_flow cost is documented as not implemented'
   if 'cumulative_flow_bounds_relative' in costs and 'cumulative_bounds' not in d:
@@ -652,10 +641,7 @@ def o_check_costs(d, dev, basis, tag):
       poly = np().poly1d(o_floats(costs[k]))
       ok = isinstance(p, Fm.DemandFunction) and close([p.inner_function(x) for x in PROBES], [poly(x) for x in PROBES])
     if not ok:
-      kk = key('curve-parameters')
-      if d['type'] == 'supply' and k == 'flow_bounds_relative':
-        kk['feature'] = 'flow_bounds_relative'          # known-bad branch kb_supply_fbr (loads only at basis 2, wrongly)
-      out.append(fail(kk, '%s: the %s term is not the piecewise-constant expansion of %s' % (tag, k, costs[k])))
+      out.append(fail(key('curve-parameters'), '%s: the %s term is not the piecewise-constant expansion of %s' % (tag, k, costs[k])))
   return out
 
 
@@ -670,10 +656,7 @@ def o_check_leaf(d, dev, basis, tag):
     return out
   lo, hi = o_device_bounds(d)
   if not (close(dev.lbounds, lo) and close(dev.hbounds, hi)):
-    k = key('bounds')
-    if d['type'] == 'supply' and basis == 2:
-      k['feature'] = 'basis2'
-    out.append(fail(k, '%s: bounds %s, expected per slot %s from runs %s' % (tag, np().array(dev.bounds).tolist(), list(zip(lo, hi)), d['bounds'])))
+    out.append(fail(key('bounds'), '%s: bounds %s, expected per slot %s from runs %s' % (tag, np().array(dev.bounds).tolist(), list(zip(lo, hi)), d['bounds'])))
   if 'cumulative_bounds' in d:
     want = o_cbounds(d['cumulative_bounds'])
     got = [tuple(float(x) for x in c) for c in (dev.cbounds or [])]
@@ -730,7 +713,7 @@ class C20(Prop):
     'runToArray_spec', 'runToArray_greatest', 'runToArray_perm', 'runToArray_perm_spec', 'runToArray_keyError',
     'runToArrayNp_homogeneous', 'runToCbounds_entries', 'runToCbounds_length', 'runToCbounds_partition', 'runToCbounds_perm',
     'care_spec', 'care_spec_vec', 'care_vector_n2', 'on_spec', 'on_odd', 'supply_spec', 'supplyBounds_spec',
-    'supply_basis2_defect', 'tableBounds_spec', 'load_bounds_spec', 'supply_bounds_spec', 'loadData_length')]
+    'supplyBounds_eq', 'supply_basis2_regression', 'tableBounds_spec', 'load_bounds_spec', 'supply_bounds_spec', 'loadData_length')]
   rule = ('run dictionaries (1..6 runs, scalar / vector values, shuffled keys, basis 1..12 quick / ..48 thorough), care masks, '
           'on-interval lists, supply bounds, and builder exports of every kind (load x each cost kind, fixed_load, storage, supply, '
           'thermal_load); non-trivial: a run dictionary with >= 2 runs; an export with >= 2 runs in some device and >= 2 device kinds; '
@@ -754,7 +737,8 @@ class C20(Prop):
       out.append(g(rng, tier))
     return out
 
-  # ---- corpus: minimal inputs of the fixed defect (D24) and of every known-bad kind, run first on every check
+  # ---- corpus: minimal inputs of the fixed defects (D24, 375582f), of the two known-bad kinds, and of the
+  #      observed-outside-the-property inputs; run first on every check
   def corpus(self):
     run = lambda b, rs: {'basis': b, 'runs': rs}
     probe = lambda b: {'i': 0, 's': ['1/2']*b, 's0': ['1/4']*b}
@@ -766,13 +750,17 @@ class C20(Prop):
               'parameters': {'desiredTemperature': '20', 'initialTemperature': '18', 'thermalSustainment': '1/2', 'efficiencyFactor': '1',
                              'externalTemperatureProfile': ['10', '11'], 'temperatureVariationCareFactor': run(2, [[0, '2']])}}]),
       ex(1, [{'type': 'storage', '_kb': 'storage-clipping', 'bounds': run(1, [[0, ['-1', '1']]]), 'parameters': [['chargeRateClippingFactor', '2']]}]),
-      ex(2, [{'type': 'supply', '_kb': 'supply-basis2', 'bounds': run(2, [[0, ['0', '2']], [1, ['1', '5']]]), 'costs': {}}]),
-      ex(2, [{'type': 'supply', '_kb': 'supply-basis2', 'bounds': run(2, [[0, ['1', '5']], [1, ['0', '2']]]), 'costs': {}}]),
-      ex(3, [{'type': 'supply', '_kb': 'supply-flow-bounds-relative', 'bounds': run(3, [[0, ['0', '2']]]),
-              'costs': {'flow_bounds_relative': run(3, [[0, ['-2', '-1']]])}}]),
-      ex(1, [{'type': 'load', '_kb': 'no-costs', 'bounds': run(1, [[0, ['0', '1']]])}]),
-      ex(2, [{'type': 'fixed_load', '_kb': 'fixed-partly-open', 'bounds': run(2, [[0, ['1', '1']], [1, ['2', '3']]])}]),
-      ex(1, [{'type': 'fixed_load', 'bounds': run(1, [[0, ['1', '1']]])}], name='myset', _kb='name'),
+      # regressions of fix 375582f (supply at basis 2; supply x flow_bounds_relative) — MAIN inputs now
+      ex(2, [{'type': 'supply', 'bounds': run(2, [[0, ['0', '2']], [1, ['1', '5']]]), 'costs': {}}]),
+      ex(2, [{'type': 'supply', 'bounds': run(2, [[0, ['1', '5']], [1, ['0', '2']]]), 'costs': {}}]),
+      ex(3, [{'type': 'supply', 'bounds': run(3, [[0, ['0', '2']]]), 'costs': {'flow_bounds_relative': run(3, [[0, ['-2', '-1']]])}}]),
+      ex(2, [{'type': 'supply', 'bounds': run(2, [[1, ['3/4', '9/4']], [0, ['5/2', '7/2']]]),
+              'costs': {'flow_bounds_relative': run(2, [[0, ['-9/4', '1/4']], [1, ['-1/2', '2']]])}}]),
+      {'k': 'supply', 'run': run(2, [[0, ['1', '5']], [1, ['0', '2']]]), '_ints': True},
+      # outside the property (T2 only): no costs entry, partly open fixed load, export name, length-2 bounds vector
+      ex(1, [{'type': 'load', '_malformed': 'no-costs', 'bounds': run(1, [[0, ['0', '1']]])}]),
+      ex(2, [{'type': 'fixed_load', '_malformed': 'fixed-partly-open', 'bounds': run(2, [[0, ['1', '1']], [1, ['2', '3']]])}]),
+      ex(1, [{'type': 'fixed_load', 'bounds': run(1, [[0, ['1', '1']]])}], name='myset'),
       {'k': 'care', 'n': 2, 'care': ['1', '0'], 'bounds': {'form': 'vector', 'v': ['1', '3']}},
       {'k': 'on', 'l': 2, 'on': [0, 0], 'bounds': {'form': 'vector', 'v': ['1', '3']}},
     ]
@@ -866,15 +854,14 @@ class C20(Prop):
       lo, hi = [pf(b['lo'])]*n, [pf(b['hi'])]*n
     elif b['form'] == 'pairvec':
       lo, hi = [pf(x) for x in b['lo']], [pf(x) for x in b['hi']]
+    elif n == 2:           # a length-2 `bounds` IS the documented 2-tuple (low, high): that reading has precedence
+      lo, hi = [pf(b['v'][0])]*2, [pf(b['v'][1])]*2
     else:
       lo = hi = [pf(x) for x in b['v']]
     want = [[lo[t], hi[t]] if mask[t] else [0.0, 0.0] for t in range(n)]
     out = []
     if not close(got, want):
-      key = {'kind': 'wrong-bounds', 'fn': fn}
-      if b['form'] == 'vector' and n == 2:
-        key = {'kind': 'vector-bounds-n2', 'fn': fn}
-      out.append(fail(key, '%s(%s) gives bounds %s, expected %s (limits inside, 0 outside)' % (fn, before, np().array(got).tolist(), want)))
+      out.append(fail({'kind': 'wrong-bounds', 'fn': fn}, '%s(%s) gives bounds %s, expected %s (limits inside, 0 outside)' % (fn, before, np().array(got).tolist(), want)))
     if not deep_equal(dev, before):
       out.append(fail({'kind': 'input-modified', 'fn': fn}, '%s modified its argument: %s -> %s' % (fn, before, dev)))
     if res.get('note') is extra or res['note'][1] is extra[1]:
@@ -911,13 +898,7 @@ class C20(Prop):
     except Exception as ex:
       exc = ex
     if any(reasons):
-      if exc is None:
-        i = [k for k, r in enumerate(reasons) if r][0]
-        key = {'kind': 'malformed-accepted', 'device_type': e['devices'][i]['type']}
-        if reasons[i].startswith('fixed load'):
-          key = {'kind': 'fixed-load-accepts-nonfixed', 'device_type': 'fixed_load'}
-        out.append(fail(key, 'load_data accepted device %d (%s): %s' % (i, reasons[i], before['devices'][i])))
-      return out
+      return []            # outside the property: which exports are rejected (and how) is not part of C20
     if exc is not None:
       # which exported device cannot load?  (one-device exports, same basis)
       for i, d in enumerate(e['devices']):
@@ -938,8 +919,6 @@ class C20(Prop):
       return out
     for i, (d, dev) in enumerate(zip(e['devices'], ds.devices)):
       out += o_check_leaf(d, dev, basis, 'device %d of %s' % (i, before))
-    if 'name' in e and ds.id != e['name']:
-      out.append(fail({'kind': 'set-name-ignored'}, 'load_data ignores the export name %r: the set is called %r' % (e['name'], ds.id)))
     if not deep_equal(export, before):
       out.append(fail({'kind': 'input-modified', 'fn': 'load_data'}, 'load_data modified the export'))
     return out
@@ -949,12 +928,6 @@ class C20(Prop):
     costs = d.get('costs')
     if d['type'] == 'storage' and any(k.endswith('ClippingFactor') for k, _ in d.get('parameters', [])):
       return 'clipping'
-    if d['type'] in ('load', 'supply') and costs is None:
-      return 'no-costs'
-    if d['type'] == 'supply' and 'flow_bounds_relative' in (costs or {}):
-      return 'flow_bounds_relative'
-    if d['type'] == 'supply' and basis == 2:
-      return 'basis2'
     return None
 
   # ---- evidence
